@@ -215,7 +215,7 @@ async fn case(rep: &mut Report, rng: &mut Rng, tx: Tx, tr: Transport, linger_ms:
   // (2) time bounds
   if closed.is_err() {
     rep.violation(format!("close_never_returned|{:?}", how), format!("{}: close/term did not return within {:?}", cfg, limit), json!({"config": cfg}));
-  } else if linger_ms == 0 && close_time > Duration::from_secs(3) {
+  } else if linger_ms == 0 && close_time > util::scaled(Duration::from_secs(3)) {
     rep.violation(format!("linger0_close_not_prompt|{:?}", how), format!("{}: LINGER 0 but close/term took {:?}", cfg, close_time), json!({"config": cfg, "close_ms": close_time.as_millis() as u64}));
   } else if linger_ms > 0 && close_time > Duration::from_millis(linger_ms as u64) + Duration::from_secs(12) {
     rep.violation(format!("close_outlasts_linger|{:?}", how), format!("{}: close/term took {:?}, far beyond LINGER", cfg, close_time), json!({"config": cfg, "close_ms": close_time.as_millis() as u64}));
